@@ -818,7 +818,7 @@ CHECK = Check(
         "a FileWrapper over a file object yields blocks of at most buffer_size bytes and never an empty block; seek/tell of the underlying file behave like io.BytesIO (validated by stream ranges)",
         "str.lower()/strip() are modelled for ASCII header text without line feeds (WSGI header values); other text is checked by the oracle only",
         "_etag_re, _plain_int_re and the split/strip calls of parse_range_header are hand-modelled and validated by streams parsers / ranges",
-        "is_byte_range_valid, Range.range_for_length, Range.__init__, parse_range_header, unquote_etag and _plain_int are regenerated from the source by tools/py2lean.py (Gen/PyFns_Range.lean, Gen/PyFns_Internal.lean) on every run and proved equal to the hand model for all inputs, including that they never raise (Props/C11T); the CPython primitives the translated code calls are modelled in Util/PyPrelude.lean and validated by stream prelude-kernels",
+        "is_byte_range_valid, Range.range_for_length, Range.__init__, parse_range_header, unquote_etag, IfRange.__init__, parse_if_range_header (parse_date opaque) and _plain_int are regenerated from the source by tools/py2lean.py (Gen/PyFns_Range.lean, Gen/PyFns_Internal.lean) on every run and proved equal to the hand model for all inputs, including that they never raise (Props/C11T); the CPython primitives the translated code calls are modelled in Util/PyPrelude.lean and validated by stream prelude-kernels",
     ],
     trusted_extra=["CPython re / str / datetime / io semantics for the modelled primitives (validated by the streams, not verified)"],
     quick_budget=2500,
